@@ -170,7 +170,11 @@ namespace vc
         void  dealloc(char kind, void* p, std::size_t n, std::size_t size, std::size_t al) noexcept;
         Backend*                   be_;
         std::map<void*, LiveAlloc> live_;
-        int                        next_id_ = 0;
+        static int& next_id() // ids are unique over all allocator objects of an execution
+        {
+            static int n = 0;
+            return n;
+        }
     };
 
     // ---- joint object registration (first member of the joint test type) ------------------------
@@ -260,6 +264,7 @@ namespace vc
     struct Ctx
     {
         LogAlloc*                            alloc = nullptr;
+        LogAlloc*                            allocs[2] = {nullptr, nullptr};
         std::vector<std::unique_ptr<Holder>> slots;
         long                                 c = 0; // command index
     };
